@@ -1,0 +1,97 @@
+//! Read-only state snapshots for external runtime verification (cargo feature `verif`).
+//!
+//! Nothing in here changes control flow; with the feature off this module does not exist.
+use core::num::NonZeroU16;
+
+use heapless::Vec;
+
+use super::Session;
+
+/// Transmission progress of one queued outbound packet.
+#[derive(Debug, Copy, Clone, PartialEq, Eq, Hash)]
+pub enum VerifSend {
+    Write(usize),
+    Flush,
+    Sent,
+}
+
+/// One retained packet (or pending PUBREL, where `offset`/`len` are zero).
+#[derive(Debug, Copy, Clone, PartialEq, Eq, Hash)]
+pub struct VerifEntry {
+    pub packet_id: u16,
+    pub offset: usize,
+    pub len: usize,
+    pub state: VerifSend,
+}
+
+/// One owed control packet; `kind` is the MQTT packet type (4, 5, 7 or 12).
+#[derive(Debug, Copy, Clone, PartialEq, Eq, Hash)]
+pub struct VerifControl {
+    pub kind: u8,
+    pub packet_id: u16,
+    pub reason: u8,
+    pub state: VerifSend,
+}
+
+/// Transmit arena bookkeeping.
+#[derive(Debug, Clone, Default, PartialEq, Eq, Hash)]
+pub struct VerifTx {
+    pub capacity: usize,
+    pub used: usize,
+    pub retained: Vec<VerifEntry, 8>,
+    pub release: Vec<VerifEntry, 8>,
+    pub control: Vec<VerifControl, 8>,
+}
+
+/// Plain-data copy of the session state.
+#[derive(Debug, Clone, PartialEq, Eq, Hash)]
+pub struct VerifSnapshot {
+    pub send_quota: u16,
+    pub max_send_quota: u16,
+    pub maximum_packet_size: Option<u32>,
+    pub max_qos: Option<u8>,
+    pub keepalive_ms: u64,
+    pub next_ping: Option<u64>,
+    pub ping_timeout: Option<u64>,
+    pub session_present: bool,
+    pub generation: u32,
+    pub next_packet_id: u16,
+    pub pending_server_packet_ids: Vec<u16, 8>,
+    pub reader_read_bytes: usize,
+    pub reader_packet_length: Option<usize>,
+    pub tx: VerifTx,
+}
+
+impl Session<'_> {
+    /// Copy the session state.
+    pub fn verif_snapshot(&self) -> VerifSnapshot {
+        let (reader_read_bytes, reader_packet_length) = self.packet_reader.verif_progress();
+        VerifSnapshot {
+            send_quota: self.runtime.send_quota,
+            max_send_quota: self.runtime.max_send_quota,
+            maximum_packet_size: self.runtime.maximum_packet_size,
+            max_qos: self.runtime.max_qos.map(|qos| qos as u8),
+            keepalive_ms: self.runtime.keepalive_interval.as_millis(),
+            next_ping: self.runtime.next_ping.map(|at| at.as_ticks()),
+            ping_timeout: self.runtime.ping_timeout.map(|at| at.as_ticks()),
+            session_present: self.data.session_present,
+            generation: self.data.generation(),
+            next_packet_id: self.data.verif_peek_packet_id(),
+            pending_server_packet_ids: self.data.pending_server_packet_ids.clone(),
+            reader_read_bytes,
+            reader_packet_length,
+            tx: self.data.outbound.verif_tx(),
+        }
+    }
+
+    /// Bytes currently stored in the transmit arena at `offset..offset + len`.
+    pub fn verif_tx_bytes(&self, offset: usize, len: usize) -> &[u8] {
+        self.data.outbound.verif_bytes(offset, len)
+    }
+
+    /// Position the packet identifier counter (zero is mapped to one).
+    pub fn verif_set_next_packet_id(&mut self, packet_id: u16) {
+        self.data
+            .verif_set_packet_id(NonZeroU16::new(packet_id).unwrap_or(NonZeroU16::MIN));
+    }
+}
